@@ -63,7 +63,8 @@ var (
 type gen struct {
 	cfg   *common.Config
 	rep   *common.Report
-	env   *credgen.Env
+	env   *credgen.Env   // loader 0 (also the process-wide default loader)
+	envs  []*credgen.Env // envs[0] == env; envs[1] serves Spec.AltSchema at the same URLs
 	hists []*Input
 	obs   []histObs
 
@@ -92,8 +93,23 @@ func specKey(sp credgen.Spec) string {
 	return string(b)
 }
 
-func (g *gen) viewOf(sp credgen.Spec) credgen.View {
-	k := specKey(sp)
+// under: the spec as the given loader presents it (its schema document).
+func under(sp credgen.Spec, loader int) credgen.Spec {
+	if loader == 1 && sp.AltSchema != nil {
+		sp.Schema = sp.AltSchema
+	}
+	return sp
+}
+
+func loaderOf(o *credgen.Opts) int {
+	if o == nil {
+		return 0 // nil options: the process-wide default loader
+	}
+	return o.Loader
+}
+
+func (g *gen) viewOf(sp credgen.Spec, loader int) credgen.View {
+	k := fmt.Sprintf("%d|", loader) + specKey(sp)
 	g.mu.Lock()
 	v, ok := g.views[k]
 	g.mu.Unlock()
@@ -104,7 +120,7 @@ func (g *gen) viewOf(sp credgen.Spec) credgen.View {
 	if err != nil {
 		panic(fmt.Sprintf("generator: %v", err))
 	}
-	v = g.env.ViewOf(&c.VC, pathsOf(sp))
+	v = g.envs[loader].ViewOf(&c.VC, pathsOf(under(sp, loader)))
 	g.mu.Lock()
 	g.views[k] = v
 	g.mu.Unlock()
@@ -124,7 +140,7 @@ func (g *gen) freshCall(sp credgen.Spec, o *credgen.Opts) callObs {
 	c, _ := credgen.Build(sp)
 	var ro *verifiable.CoreClaimOptions
 	if o != nil {
-		ro = g.env.Real(*o)
+		ro = g.envs[o.Loader].Real(*o)
 	}
 	r = oneCall(&c.VC, ro)
 	g.mu.Lock()
@@ -414,15 +430,22 @@ func pathsOf(sp credgen.Spec) []string {
 func (g *gen) register(sp credgen.Spec) {
 	g.mu.Lock()
 	defer g.mu.Unlock()
-	if g.env.Loader.Raw(sp.Schema.URL) == nil || string(g.env.Loader.Raw(sp.Schema.URL)) != string(sp.Schema.BuildDoc()) {
-		if err := g.env.Register(sp.Schema); err != nil {
-			panic(err)
+	put := func(e *credgen.Env, sc *credgen.Schema) {
+		doc := sc.BuildDoc()
+		if string(e.Loader.Raw(sc.URL)) != string(doc) {
+			if err := e.Register(sc); err != nil {
+				panic(err)
+			}
 		}
 	}
+	put(g.envs[0], sp.Schema)
+	put(g.envs[1], under(sp, 1).Schema)
 }
 
 func optsEqual(a credgen.Opts, r *verifiable.CoreClaimOptions) bool {
-	return a == credgen.FromReal(r)
+	x := credgen.FromReal(r)
+	x.Loader = a.Loader
+	return a == x
 }
 
 // run executes one history on the implementation and evaluates the oracles.
@@ -431,7 +454,6 @@ func (g *gen) run(in *Input) (out outcome) {
 		out.fails = append(out.fails, failure{class, what, input})
 	}
 	var creds, pristine []*credgen.Cred
-	var views []credgen.View
 	for _, sp := range in.Creds {
 		g.register(sp)
 		c, err := credgen.Build(sp)
@@ -441,12 +463,11 @@ func (g *gen) run(in *Input) (out outcome) {
 		p, _ := credgen.Build(sp)
 		creds = append(creds, c)
 		pristine = append(pristine, p)
-		views = append(views, g.viewOf(sp))
 	}
 	var objs []*verifiable.CoreClaimOptions
 	var mzSlices [][]merklize.MerklizeOption
 	for _, o := range in.Opts {
-		r := g.env.Real(o)
+		r := g.envs[o.Loader].Real(o)
 		objs = append(objs, r)
 		mzSlices = append(mzSlices, r.MerklizerOpts)
 	}
@@ -486,7 +507,7 @@ func (g *gen) run(in *Input) (out outcome) {
 			usedOpts[k.Opts] = true
 		}
 		// (2) layout / error cases against the independent arithmetic statement
-		ex := expected(in.Creds[k.Cred], views[k.Cred], eff)
+		ex := expected(under(in.Creds[k.Cred], loaderOf(effp)), g.viewOf(in.Creds[k.Cred], loaderOf(effp)), eff)
 		if ex.ok != (fo.class == "ok") {
 			fail("c05-error-case", fmt.Sprintf("fresh call: got %s (%s), expected ok=%v (%s)", fo.class, fo.msg, ex.ok, ex.why), where)
 		} else if ex.ok {
@@ -509,7 +530,9 @@ func (g *gen) run(in *Input) (out outcome) {
 	}
 	// (4) options and credentials are left as they were
 	for i, o := range in.Opts {
-		ho.after = append(ho.after, credgen.FromReal(objs[i]))
+		after := credgen.FromReal(objs[i])
+		after.Loader = o.Loader
+		ho.after = append(ho.after, after)
 		same := optsEqual(o, objs[i]) && len(objs[i].MerklizerOpts) == len(mzSlices[i])
 		if same && len(mzSlices[i]) > 0 && &objs[i].MerklizerOpts[0] != &mzSlices[i][0] {
 			same = false
@@ -796,6 +819,52 @@ func (g *gen) sequenceStream(p pool) {
 		Calls: []Call{{0, 0}, {1, 0}, {0, 0}, {1, 0}}})
 }
 
+// loaderStream: the same @context URLs and type, served by two document loaders with
+// different schema documents (merklized vs serialized, two different slot assignments, well-formed
+// vs malformed); calls interleaved in both orders over shared and separate credential objects.
+// Every result must be the one a fresh call with that loader's documents gives.
+func (g *gen) loaderStream(p pool) {
+	e := g.env
+	str := func(s string) *string { return &s }
+	did := credgen.MakeDID(11)
+	alt := func(base *credgen.Schema, ser *string, shape string) *credgen.Schema {
+		return &credgen.Schema{URL: base.URL, TypeName: base.TypeName, TypeIRI: base.TypeIRI, Ser: ser, CtxShape: shape}
+	}
+	var specs []credgen.Spec
+	a := e.NewSchema(nil) // merklized under loader 0, serialized under loader 1
+	specs = append(specs, credgen.Spec{Schema: a, AltSchema: alt(a, str(credgen.SerAttr("price", "", "", "name")), "map"), Subject: did})
+	b := e.NewSchema(str(credgen.SerAttr("count", "name", "", ""))) // serialized / merklized
+	specs = append(specs, credgen.Spec{Schema: b, AltSchema: alt(b, nil, "map")})
+	c := e.NewSchema(str(credgen.SerAttr("price", "count", "", ""))) // two different assignments
+	x := int64(1900000000)
+	specs = append(specs, credgen.Spec{Schema: c, AltSchema: alt(c, str(credgen.SerAttr("", "", "count", "price")), "map"), Subject: did, Expiration: &x})
+	d := e.NewSchema(str(credgen.SerAttr("", "name", "", ""))) // well-formed / malformed
+	specs = append(specs, credgen.Spec{Schema: d, AltSchema: alt(d, str("iden3:v1:slotIndexZ=name"), "map")})
+	f := e.NewSchema(str(credgen.SerAttr("name", "", "", ""))) // map-shaped / array-shaped scoped context
+	specs = append(specs, credgen.Spec{Schema: f, AltSchema: alt(f, str(credgen.SerAttr("name", "", "", "")), "array")})
+	orders := [][]int{{0, 1}, {1, 0}, {0, 1, 0, 1}, {1, 0, 1, 0}, {0, 0, 1, 1, 0}, {1, 1, 0, 0, 1}}
+	for _, sp := range specs {
+		for _, ord := range orders {
+			for _, twoObjects := range []bool{false, true} {
+				in := &Input{Kind: "loaders", Creds: []credgen.Spec{sp}, Opts: []credgen.Opts{{Loader: 0}, {Loader: 1, Upd: true, Version: 2, RevNonce: 5}}}
+				if twoObjects {
+					in.Creds = append(in.Creds, sp) // a second credential object with the same @context URLs and type
+				}
+				for i, l := range ord {
+					k := Call{Cred: 0, Opts: l}
+					if twoObjects {
+						k.Cred = i % 2
+					}
+					in.Calls = append(in.Calls, k)
+				}
+				g.add(in)
+			}
+		}
+		// nil options use the process-wide default loader (loader 0), between calls that carry loader 1
+		g.add(&Input{Kind: "loaders", Creds: []credgen.Spec{sp}, Opts: []credgen.Opts{{Loader: 1}}, Calls: []Call{{0, 0}, {0, -1}, {0, 0}, {0, -1}}})
+	}
+}
+
 func (g *gen) repeatStream(p pool) {
 	pick := []credgen.Spec{p.merk[5], p.ser[len(p.ser)-1]}
 	for _, c := range p.special {
@@ -845,19 +914,19 @@ func (g *gen) writeShards() error {
 		name := filepath.Join(g.cfg.OutDir, fmt.Sprintf("cases_C05_%03d.v", s))
 		for i := lo; i < hi; i++ {
 			in, ob := g.hists[i], g.obs[i]
-			var idx []int
-			for _, sp := range in.Creds {
-				kb, _ := json.Marshal(sp)
-				key := string(kb)
+			// the model's credential is the view under the loader the call's options carry
+			poolOf := func(ci, loader int) int {
+				sp := in.Creds[ci]
+				key := fmt.Sprintf("%d|", loader) + specKey(sp)
 				j, ok := poolIdx[key]
 				if !ok {
-					v := g.viewOf(sp)
+					v := g.viewOf(sp, loader)
 					or.Note(v)
 					j = len(poolDefs)
 					poolIdx[key] = j
 					poolDefs = append(poolDefs, fmt.Sprintf("Definition cr%d := %s.", j, v.Coq(f)))
 				}
-				idx = append(idx, j)
+				return j
 			}
 			var os, ks, obl, af []string
 			for _, o := range in.Opts {
@@ -868,7 +937,11 @@ func (g *gen) writeShards() error {
 				if k.Opts >= 0 {
 					oi = fmt.Sprintf("(Some %d)", k.Opts)
 				}
-				ks = append(ks, fmt.Sprintf("kc %d %s", idx[k.Cred], oi))
+				ld := 0
+				if k.Opts >= 0 {
+					ld = in.Opts[k.Opts].Loader
+				}
+				ks = append(ks, fmt.Sprintf("kc %d %s", poolOf(k.Cred, ld), oi))
 			}
 			for _, o := range ob.calls {
 				obl = append(obl, obsCoq(o))
@@ -900,8 +973,9 @@ func (g *gen) writeShards() error {
 func Run(cfg *common.Config) (*common.Report, error) {
 	rep := common.NewReport("C05")
 	rep.Correspondence = "Claim.Run.hmismatches: run_history / to_core_claim (Claim/Model.v) vs W3CCredential.ToCoreClaim over histories of calls sharing option objects and credentials: per call the 8 raw slot integers or the error class, and the option objects after the history"
-	rep.Rule = "option grid {\"\",index,value,bogus}^2 x updatable x version {0,1,2^32-1} x nonce {0,1,2^64-1} (288 points; complete on two credentials in the quick tier, on all in the thorough tier, sampled otherwise) x credentials (merklized; serialized with all 2^4 slot subsets; subject id none / two DIDs; expiration none / 2030 / 1969 / 0) + special credentials (unusable DIDs, null id, type taken from the top-level pair, missing named field, malformed attributes, non-string attribute, array-shaped scoped contexts, sibling types, unloadable context) + random histories of 1..6 calls over 1..3 shared option objects (or nil) and 1..3 credentials + 30-fold repetitions. distinct = distinct (credential specs, option objects, call list) histories; every history is non-trivial (it reaches the claim builder or one of its error points)."
+	rep.Rule = "option grid {\"\",index,value,bogus}^2 x updatable x version {0,1,2^32-1} x nonce {0,1,2^64-1} (288 points; complete on two credentials in the quick tier, on all in the thorough tier, sampled otherwise) x credentials (merklized; serialized with all 2^4 slot subsets; subject id none / two DIDs; expiration none / 2030 / 1969 / 0) + special credentials (unusable DIDs, null id, type taken from the top-level pair, missing named field, malformed attributes, non-string attribute, array-shaped scoped contexts, sibling types, unloadable context) + random histories of 1..6 calls over 1..3 shared option objects (or nil) and 1..3 credentials + histories in which two document loaders serve different schema documents (merklized / serialized / other assignment / malformed) at the same @context URLs and type, interleaved in both orders + 30-fold repetitions. distinct = distinct (credential specs, option objects, call list) histories; every history is non-trivial (it reaches the claim builder or one of its error points)."
 	g := &gen{cfg: cfg, rep: rep, env: credgen.NewEnv(), views: map[string]credgen.View{}, fresh: map[string]callObs{}}
+	g.envs = []*credgen.Env{g.env, credgen.NewEnv()}
 	merklize.SetDocumentLoader(g.env.Loader) // nil options carry no merklizer options: the default loader must be offline too
 	if cfg.Replay != "" {
 		return replay(cfg, g)
@@ -910,6 +984,7 @@ func Run(cfg *common.Config) (*common.Report, error) {
 	g.gridStream(p)
 	g.specialStream(p)
 	g.sequenceStream(p)
+	g.loaderStream(p)
 	g.repeatStream(p)
 	g.flush()
 	for i, in := range g.hists {
